@@ -6,6 +6,8 @@ def plan(tier):
     conds = C.t_upd_conds("C06", tier, kinds=range(11))
     conds.append(Cond("vf.h.h_misc", "h_link", case=0, timeout=300, label="H06-link", weight=3))
     conds.append(Cond("vf.h.h_misc", "h_fold", case=0, timeout=600, label="H06-fold", weight=8))
+    conds.append(Cond("vf.h.h_misc", "h_fold_deg", case=0, timeout=300, label="H06-fold-degenerate-head", weight=3))
+    conds.append(Cond("vf.h.h_misc", "h_move2", case=0, timeout=300, label="H06-move-two-links", weight=3))
     return {
         "conds": conds,
         "min_classes": 20,
@@ -16,7 +18,7 @@ def plan(tier):
                        "odometer grows by the driven distance, vehicle sits at the junction between driven and remaining part, arrival leaves the travelling activity at the next update. "
                        "traverse is a fold whose accumulator carries only the remaining time, so the 1- and 2-link results extend to routes of any length by induction (argument, not solver-checked).",
         "entry_points": ["linktraversal.traverse_up_to", "LinkTraversal.travel_time_seconds", "H3Ops.point_along_link", "routetraversal.traverse", "vehicle_state_ops.move", "VehicleState.default_update"],
-        "bounds": ["link length 1 m .. 50 km (symbolic), speeds {1, 25, 40, 104.6} km/h, time 0..7200 s", "routes of 1 and 2 links"] + C.T_BOUNDS[1:],
+        "bounds": ["link length 1 m .. 50 km (symbolic), speeds {1, 25, 40, 104.6} km/h, time 0..7200 s", "routes of 1 and 2 links (incl. a zero-length head link); real move() over a two-link route with the step ending on either link, at the node or at the end"] + C.T_BOUNDS[1:],
         "outside": ["which h3 cell the interpolated point falls in (C library; solver-chosen among cells on the link)", "progress at cell granularity (geometry)",
                     "great-circle vs. road length of OSM links", "pooling activities"],
         "stubs": C.STUBS_COMMON + C.STUBS_UPD + ["units.int (inside hours_to_seconds) calls RealBasedSymbolicFloat.__int__ directly: CrossHair's patched int() would realise the float"],
